@@ -51,7 +51,12 @@ def _sd(s):
 
 def g_formula(draw):
     C, F = gen.dims(draw)
-    p = gen.gmm_params(draw, C, F)
+    if gen.choice(draw, [False, False, False, False, True]):
+        # a larger, overlapping mixture (every component takes a share of every sample)
+        C = gen.choice(draw, [17, 24, 40])
+        p = gen.gmm_params(draw, C, F, spread=1.0)
+    else:
+        p = gen.gmm_params(draw, C, F)
     n = gen.integer(draw, 1, 40 if gen.big() else 14)
     X, kind = gen.data_from(draw, p, n, kind=gen.choice(draw, ["bulk", "bulk", "mixed"]))
     chunks = gen.composition(draw, n)
